@@ -536,7 +536,7 @@ func C14(c *core.Ctx) {
 	}
 	c.Extra["index_sinks_seen"] = nSinks
 	c.Extra["index_sinks_decided"] = nDecided
-	c.Floor("R14.2", "decidable index operations in the URI parsers", nDecided, 8)
+	c.Floor("R14.2", "decidable index operations in the URI parsers", nDecided, 5)
 
 	// ---- R14.3 type range
 	if fn := c.Fn("R14.3", "std/encoding", "", "componentFromStrInto"); fn != nil {
